@@ -6,12 +6,18 @@
   C code of those algorithms really leaves the parent alone is established by the correspondence run only: every
   operand position is a window (all row/word offsets, parent wider or not, random surroundings) and EVERY bit of
   every parent allocation is compared before/after.
+  Added (M4riProofs/MulW.lean): for the Four-Russians tables and products the frame law is now a THEOREM about the
+  word-level mirrors, not only a measurement: `processRowsW_frame` / `processRowsW_spec` (excess bits of every row
+  unchanged, columns below `startcol` in the home word untouched), `m4rmW_bit`, `mulNaiveTW_spec`, `mulVaW_spec`
+  (result = `C.putB …`: entries from entries, excess bits of C kept, for A, B, C views with arbitrary excess bits).
 -/
 import M4riProofs.W.RowCol
 import M4riProofs.W.Perm
 import M4riProofs.W.DataMove
 import M4riProofs.W.Observers
 import M4riProofs.Bridge
+import M4riProofs.MulW
+import M4riProofs.Props.C01x
 namespace M4ri.Props.C09
 open M4ri M4ri.Mzd
 
@@ -51,5 +57,16 @@ theorem lens_put_keeps_excess (M : Mzd) (B : BMat) (h : M.WF) (i j : Nat) (hi : 
 #check @M4ri.Mzd.equal_iff
 #check @M4ri.Mzd.findPivot_eq_none_iff
 #check @M4ri.Mzd.firstZeroRow_eq_iff
+
+#check @M4ri.Mzd.W.processRowsW_frame
+#check @M4ri.Mzd.W.processRowsW_bit
+#check @M4ri.Mzd.W.makeTableW_masked
+#check @M4ri.Mzd.W.makeTableW_masked_all
+#check @M4ri.Mzd.W.makeTableW_padZero
+#check @M4ri.Mzd.W.makeTableW_row_keep
+#check @M4ri.Mzd.W.makeTableW_low
+#check @M4ri.Mzd.W.m4rmPassW_spec
+#check @M4ri.Mzd.W.mulNaiveTW_bit
+#check @M4ri.Mzd.W.mulVaW_bit
 
 end M4ri.Props.C09
